@@ -287,6 +287,12 @@ def quick_ret(x=None, ready_file=None):
     return 5
 
 
+def ret_after(x=None, delay=0.2):
+    import time as _t
+    _t.sleep(delay)
+    return 5
+
+
 def raise_soon(x=None, ready_file=None):
     """Tells the harness it has started and dies of an exception right away: the caller meets a worker which is going down."""
     if ready_file:
